@@ -62,7 +62,7 @@ func runC18(c *Ctx, r *Report) {
 	r.Floor("R-C18.1", "encrypted side fields of the wire entry", len(encFields), 2)
 
 	// ---- R-C18.1
-	tj := p.Func("io/jsonable", "", "ToJsonableEntry")
+	tj := p.FuncI("io/jsonable", "", "ToJsonableEntry")
 	isWire := func(e ast.Expr) bool { return namedOf(p.TypeOf(tj, e)) == wire }
 	// may-flow with path-correlated facts: dirty|k|F (F of struct k currently non-empty), enc|k, and
 	// encdirty|k|F (on this path the encrypted side field is set while F is non-empty).
@@ -162,8 +162,8 @@ func runC18(c *Ctx, r *Report) {
 	r.Floor("R-C18.1", "returns of the v2 wire struct in ToJsonableEntry", nret, 1)
 
 	// ---- R-C18.2
-	ps := p.Func("io/cbor", "IOCbor", "PreSign")
-	dl := p.Func("io/cbor", "IOCbor", "DecryptLinks")
+	ps := p.FuncI("io/cbor", "IOCbor", "PreSign")
+	dl := p.FuncI("io/cbor", "IOCbor", "DecryptLinks")
 	assignedFields := func(fn *Fn, pred func(se *ast.SelectorExpr, rhs ast.Expr) bool) map[string]bool {
 		out := map[string]bool{}
 		walkNoLit(fn.Body, func(n ast.Node) bool {
@@ -243,7 +243,7 @@ func runC18(c *Ctx, r *Report) {
 		fmt.Sprintf("PreSign writes %d additional-data keys, the writer reads %d, and they are not the same constants: the sealed links never reach the block (or the clear lists are never emptied)", len(keysWritten), len(keysRead)))
 
 	// ---- R-C18.3
-	create := p.Func("entry", "", "CreateEntryWithIO")
+	create := p.FuncI("entry", "", "CreateEntryWithIO")
 	sf := p.SSAFunc(create)
 	for _, target := range []string{"ToMultihashWithIO", "ToHashable"} {
 		found := false
@@ -252,8 +252,7 @@ func runC18(c *Ctx, r *Report) {
 			if !ok {
 				return
 			}
-			cf := calleeOf(call)
-			if cf == nil || cf.Name() != target {
+			if !c.SSACallReaches(call, func(f2 *types.Func) bool { return f2.Name() == target && p.firstParty(f2.Pkg()) }) {
 				return
 			}
 			found = true
@@ -267,7 +266,7 @@ func runC18(c *Ctx, r *Report) {
 			if arg != nil {
 				for v := range backSlice(arg, nil) {
 					if c2, ok := v.(*ssa.Call); ok {
-						if f2 := calleeOf(c2); f2 != nil && f2.Name() == "PreSign" {
+						if c.SSACallReaches(c2, func(f2 *types.Func) bool { return f2.Name() == "PreSign" }) {
 							has = true
 						}
 					}
@@ -424,6 +423,7 @@ func runC18(c *Ctx, r *Report) {
 				}
 			}
 		}
+		errCorr{p, dl, "failed|"}.edge(cond, taken, f)
 	}
 	df.Node = func(n ast.Node, f Facts) {
 		for _, id := range assignedIdents(n) {
@@ -431,6 +431,7 @@ func runC18(c *Ctx, r *Report) {
 				f.DelPrefix("failed|")
 			}
 		}
+		errCorr{p, dl, "failed|"}.node(n, f)
 	}
 	df.Run()
 	badRet := ""
